@@ -289,6 +289,23 @@ fn scenario_pairs() -> Vec<(&'static str, &'static str, &'static str)> {
             r##"<svg><var n="0"/><var n="{{$n+1}}"/><rect xy="#z|h" wh="$n"/><var n="{{$n+1}}"/><rect xy="#z|h" wh="$n"/><rect id="z" wh="5"/></svg>"##),
         ("deferred-body/while-fewer-passes", r##"<svg><var i="0"/><loop while="lt($i,2)"><rect xy="#z|h {{$i*3}}" wh="2"/><var i="{{$i+1}}"/></loop><rect id="z" wh="5"/></svg>"##,
             r##"<svg><var i="0"/><rect xy="#z|h {{$i*3}}" wh="2"/><var i="{{$i+1}}"/><rect xy="#z|h {{$i*3}}" wh="2"/><var i="{{$i+1}}"/><rect id="z" wh="5"/></svg>"##),
+        // second review round
+        ("tail-text/if-false", r##"<svg><text x="1" y="2">a<tspan>x</tspan><if test="0"><tspan>b</tspan></if>c</text></svg>"##, r##"<svg><text x="1" y="2">a<tspan>x</tspan>c</text></svg>"##),
+        ("tail-text/loop-zero", r##"<svg><text x="1" y="2"><tspan>x</tspan><loop count="0"><tspan>b</tspan></loop>tail<tspan>y</tspan></text></svg>"##, r##"<svg><text x="1" y="2"><tspan>x</tspan>tail<tspan>y</tspan></text></svg>"##),
+        ("loop-var/decimal-steps", r##"<svg><loop count="4" loop-var="i" start="0.1" step="0.1"><text xy="0 $i" text="v=$i"/></loop></svg>"##,
+            r##"<svg><text xy="0 0.1" text="v=0.1"/><text xy="0 0.2" text="v=0.2"/><text xy="0 0.3" text="v=0.3"/><text xy="0 0.4" text="v=0.4"/></svg>"##),
+        ("loop-var/decimal-ids", r##"<svg><loop count="3" loop-var="i" start="0.7" step="0.1"><rect id="r$i" xy="$i 0" wh="1"/></loop></svg>"##,
+            r##"<svg><rect id="r0.7" xy="0.7 0" wh="1"/><rect id="r0.8" xy="0.8 0" wh="1"/><rect id="r0.9" xy="0.9 0" wh="1"/></svg>"##),
+        ("empty-element/for", r##"<svg><rect wh="1"/><for data="1,2" var="v"/></svg>"##, r##"<svg><rect wh="1"/></svg>"##),
+        ("empty-element/loop-if", r##"<svg><rect wh="1"/><loop count="3"/><if test="1"/></svg>"##, r##"<svg><rect wh="1"/></svg>"##),
+        ("in-defaults/if-false", r##"<svg><var dark="0"/><defaults><if test="$dark"><rect class="d-fill-black"/></if></defaults><rect wh="20"/></svg>"##, r##"<svg><var dark="0"/><defaults></defaults><rect wh="20"/></svg>"##),
+        ("in-defaults/loop", r##"<svg><defaults><loop count="2" loop-var="i"><rect class="c$i"/></loop></defaults><rect wh="20"/></svg>"##, r##"<svg><defaults><rect class="c0"/><rect class="c1"/></defaults><rect wh="20"/></svg>"##),
+        ("text-content/if-in-shape", r##"<svg><rect wh="20"><if test="1">hi</if></rect></svg>"##, r##"<svg><rect wh="20">hi</rect></svg>"##),
+        ("text-content/if-in-text", r##"<svg><text xy="3"><if test="1">hi</if></text></svg>"##, r##"<svg><text xy="3">hi</text></svg>"##),
+        ("deferred-test/reference-in-test", r##"<svg><rect wh="2"/><var k="1"/><if test="gt(#later~w, 5)"><rect xy="^|h 1" wh="$k"/></if><var k="9"/><rect id="later" xy="0 20" wh="10"/></svg>"##,
+            r##"<svg><rect wh="2"/><var k="1"/><rect xy="^|h 1" wh="$k"/><var k="9"/><rect id="later" xy="0 20" wh="10"/></svg>"##),
+        ("deferred-sibling/if-in-a", r##"<svg><var k="0"/><a><if test="eq($k,0)"><var k="1"/><rect xy="0" wh="5"/></if><rect xy="#later|v 2" wh="5"/></a><rect id="later" xy="0 20" wh="5"/></svg>"##,
+            r##"<svg><var k="0"/><a><var k="1"/><rect xy="0" wh="5"/><rect xy="#later|v 2" wh="5"/></a><rect id="later" xy="0 20" wh="5"/></svg>"##),
         ("deferred-body/reference-within-pass", r##"<svg><rect wh="1"/><loop count="2"><circle cxy="#b@c" r="1"/><rect id="b" xy="^|v 5" wh="6"/></loop></svg>"##,
             r##"<svg><rect wh="1"/><circle cxy="#b@c" r="1"/><rect id="b" xy="^|v 5" wh="6"/><circle cxy="#b@c" r="1"/><rect id="b" xy="^|v 5" wh="6"/></svg>"##),
     ]
